@@ -135,6 +135,18 @@ Theorem C13_join_split_inverse : forall (Ch : Type) (ceqb : Ch -> Ch -> bool),
 Proof. exact join_split_inverse. Qed.
 Print Assumptions C13_join_split_inverse.
 
+(* lines(s): no line contains the newline character; joining the lines with newlines reproduces s,
+   up to the single trailing newline that is ignored. The statement is for an arbitrary character
+   type and newline character: every other character ("\r" included) is ordinary *)
+Theorem C13_lines_spec : forall (Ch : Type) (ceqb : Ch -> Ch -> bool),
+  (forall a b, ceqb a b = true <-> a = b) ->
+  forall (nl : Ch) (s : list Ch),
+    Forall (fun l => ~ In nl l) (sl_lines ceqb nl s) /\
+    (forall t, s = t ++ [nl] -> sl_join [nl] (sl_lines ceqb nl s) ++ [nl] = s) /\
+    ((forall t, s <> t ++ [nl]) -> sl_join [nl] (sl_lines ceqb nl s) = s).
+Proof. exact lines_spec. Qed.
+Print Assumptions C13_lines_spec.
+
 (* words: no word is empty or contains whitespace; the words concatenate, in order, to the string
    with its whitespace removed (that runs are not cut in two is compared by correspondence only) *)
 Theorem C13_words_spec : forall (Ch : Type) (is_space : Ch -> bool) (s : list Ch),
@@ -295,6 +307,7 @@ Example C13_nonvacuous :
   sl_permutations [7; 8; 9] = map (map (fun i => nth i [7; 8; 9] 0)) (filter nodupb (sl_cartesian_power (seq 0 3) 3)) /\
   sl_combinations [7; 8; 9] 2 = [[7; 8]; [7; 9]; [8; 9]] /\
   nth 5 (sl_subsequences [7; 8; 9]) [] = [7; 9] /\ mask_select (bits 3 5) [7; 8; 9] = [7; 9] /\
+  sl_lines Nat.eqb 0 [1; 13; 0; 2; 13; 0] = [[1; 13]; [2; 13]] /\ sl_lines Nat.eqb 0 [1; 0; 0] = [[1]; []] /\
   sl_extremum (fun b r => negb (Nat.leb r b)) [3; 1; 2; 1] = Some 1 /\
   sl_locate Nat.even [1; 3; 4; 6] = Some 2 /\ sl_take_while Nat.odd [1; 3; 4; 5] = [1; 3] /\
   filter_like (CFilter FEqA) = Some (sl_filter (pred FEqA)) /\
